@@ -200,6 +200,13 @@ func (srv *Server) Lookup(domain string) (netip.Addr, Source) {
 		if ok {
 			return friend.IP, SourceFriend
 		}
+		// Friend names are kept as configured, but queried names arrive in
+		// lower case: match case-insensitively, as DNS names are.
+		for _, friend := range srv.instance.Config().Friends {
+			if strings.EqualFold(friend.Name, friendName) {
+				return friend.IP, SourceFriend
+			}
+		}
 	}
 
 	// Source 4: domain mappings
